@@ -4,7 +4,7 @@
    cached clock ([cached]); a timer polled at [now] is ready iff deadline <= now.
    fx_sd = fixes/F14.patch (in the tree). *)
 Require Import AV.Lib.Base AV.H1.ConnRec AV.H1.ConnState AV.H1.ConnSpec AV.H1.ConnProofs.
-Require Import AV.H1.ConnGraceful AV.H1.ConnTimers.
+Require Import AV.H1.ConnGraceful AV.H1.ConnTimers AV.H1.ConnSeal AV.H1.ConnLocal AV.H1.ConnKeepAlive.
 
 (* the cached clock is at most one DateService period behind and never ahead: every deadline
    [cached now + timeout] lies in (now + timeout - TICK, now + timeout] *)
@@ -67,14 +67,45 @@ Theorem C06_keepalive_quiet_before_deadline : forall c s d,
   ka_tm s = TActive d -> now s < d -> poll_ka_timer c s = s.
 Proof. exact ka_timer_quiet. Qed.
 
-(* FULL STATEMENT of the second half ("a request observed by a poll whose clock is before the
-   deadline is served"): for every idle keep-alive state (KEEP_ALIVE set, state None, no messages,
-   no payload) and every round that brings a complete request while now < deadline, the poll
-   appends TStart of that request and leaves ka_tm = TInactive.  Proved here only on the
-   boundary instance below (timer polled before the read phase: in the poll that sees both the
-   expiry and the bytes the timer wins); in general it is covered by the correspondence and the
-   oracle (b). *)
-Theorem C06_keepalive_boundary_partial :
+(* the two debug_assert!s of poll_ka_timer hold of every reachable state, for every tree variant:
+   KEEP_ALIVE is set only on an idle connection (state None, empty queue, no payload, not draining,
+   keep-alive context) and the keep-alive timer is active only while KEEP_ALIVE is set *)
+Theorem C06_keepalive_timer_only_when_idle : forall c hs es,
+  let s := run_events c es (init c hs) in
+  (keep_alive s = true -> dstate s = SNone /\ messages s = [] /\ payload s = None /\ draining s = false /\ c_conn s = CKeepAlive) /\
+  (t_active (ka_tm s) = true -> keep_alive s = true).
+Proof. intros c hs es. apply run_events_K. apply init_K. Qed.
+
+(* hence no expiry of the keep-alive timer can close the connection while a request is in flight or
+   queued or a response body is streaming *)
+Theorem C06_keepalive_timer_inactive_while_busy : forall c hs es,
+  let s := run_events c es (init c hs) in
+  (dstate s <> SNone \/ messages s <> []) -> t_active (ka_tm s) = false /\ poll_ka_timer c s = s.
+Proof. intros c hs es s B. apply ka_timer_inactive_while_busy; [apply run_events_K; apply init_K|exact B]. Qed.
+
+(* second half of the keep-alive claim, general: for EVERY idle keep-alive state and EVERY round that
+   brings a complete request head while the clock of the poll is before the keep-alive deadline
+   (the timer is not ready at now + adv) and the shutdown signal does not fire, the poll decodes
+   and dispatches that request (the read phase first clears KEEP_ALIVE and the timer); by the two
+   theorems above the timer stays inactive until the connection is idle again. Timers are polled
+   before the read phase: in a poll that sees both the expiry and the bytes the timer wins
+   (C06_keepalive_expiry, boundary instance below). *)
+Theorem C06_keepalive_request_in_time_is_served : forall c r s x more,
+  Idle s -> r_arrive r = IReq x :: more -> sig_armed s && r_signal r = false ->
+  t_ready (ka_tm s) (now s + r_adv r) = false ->
+  exists l, trace (poll c r s) = trace s ++ TDecode x :: TStart x :: l.
+Proof. exact ka_request_in_time_is_served. Qed.
+
+(* Idle is reachable: after a first keep-alive exchange *)
+Example C06_idle_reachable :
+  let c := mkCfg (KaTimeout 2000) 0 1000 true false (mkFixes true false true) in
+  let r0 := mkReq 0 false true ONone RBNone in
+  let s := run_polls c [mkRound 0 [IReq r0] RPending false false false] (init c [[HRespond ONone 2 0]]) in
+  Idle s /\ ka_tm s = TActive 2000.
+Proof. vm_compute. repeat split; reflexivity. Qed.
+
+(* boundary instances: 1 ms before the deadline the request is served, 1 ms after it the timer wins *)
+Theorem C06_keepalive_boundary :
   let c := mkCfg (KaTimeout 2000) 0 0 true false (mkFixes true false true) in
   let r0 := mkReq 0 false true ONone RBNone in
   let r1 := mkReq 1 false true ONone RBNone in
